@@ -1230,7 +1230,13 @@ class Interp:
             hook = self.hooks.get(f"regex:{attr}")
             if hook is not None:
                 return hook(self, base, args, kwargs, node)
+            if attr in ("search", "match", "fullmatch", "finditer", "findall", "split") and args and all(isinstance(a, str | int) for a in args):
+                # folding a constant pattern over a constant string
+                r = getattr(_re.compile(base.pattern, base.flags), attr)(*args)
+                return list(r) if attr == "finditer" else r
             self.unsupported(node, f"regex method {attr} without hook")
+        if isinstance(base, _re.Match):
+            return getattr(base, attr)(*args, **kwargs)
         if isinstance(base, OrderedBag):
             if attr == "union":
                 items = list(base.items)
